@@ -39,6 +39,23 @@ Theorem C07_cli_exit_zero_iff_all_ok : forall (ok : nat -> bool) targets,
 Proof. exact exit_zero_iff_all_ok. Qed.
 Print Assumptions C07_cli_exit_zero_iff_all_ok.
 
+(* ... over one task runner, where a target may succeed and yet leave the runner cancelled (a tolerated stage-condition error): the targets
+   that ran are a prefix of the command line; exit status zero exactly when every requested target ran and none failed; a refused target
+   is the one right after the cancelling one, and the process fails *)
+Theorem C07_cli_cancelling_prefix : forall eff targets, exists rest, targets = ran_e (run_targets_e eff targets) ++ rest.
+Proof. exact run_targets_e_prefix. Qed.
+Print Assumptions C07_cli_cancelling_prefix.
+Theorem C07_cli_cancelling_exit_zero_iff : forall eff targets,
+  exit_e (run_targets_e eff targets) = 0 <->
+  (ran_e (run_targets_e eff targets) = targets /\ forallb (fun t => match eff t with EFail => false | _ => true end) targets = true).
+Proof. exact exit_e_zero_iff. Qed.
+Print Assumptions C07_cli_cancelling_exit_zero_iff.
+Theorem C07_cli_refused_target : forall eff targets u, refused_e (run_targets_e eff targets) = Some u ->
+  exit_e (run_targets_e eff targets) = 1 /\
+  exists pre t post, targets = pre ++ t :: u :: post /\ eff t = ECancelOk /\ ran_e (run_targets_e eff targets) = pre ++ [t].
+Proof. exact refused_e_spec. Qed.
+Print Assumptions C07_cli_refused_target.
+
 Example C07_nonvacuous : exit_status (run_targets (fun t => negb (Nat.eqb t 2)) [1; 2; 3]) = 1
   /\ ran (run_targets (fun t => negb (Nat.eqb t 2)) [1; 2; 3]) = [1; 2].
 Proof. split; vm_compute; reflexivity. Qed.
